@@ -11,7 +11,7 @@ import (
 )
 
 var c09Levels = []string{"parent", "context", "envfile", "task", "stage", "variation"}
-var c09Values = []string{"a", "m", "z"}
+var c09Values = []string{"a", "m", "z", ""} // the empty value since seed C09-9 (defined-but-empty is a definition)
 
 // VerifC09Env: one name (FOO) defined at the levels selected by mask (bit l =
 // level l of parent, context, env_file, task env, stage env, variation), each
